@@ -80,11 +80,17 @@ def check_filter(ctx, F, cfg, type_path, acc_of, elem_ty, conv_ref, key, flag=No
        local accumulators (`let mut list = Vec::new(); let mut flag = false; .. Ok(T { list, flag })`): a local flag is followed
        through the loop-carried values of the trace (false before the loop, true after an unknown entry, unchanged after a known one)."""
     de, vs = find_visit_seq(F, type_path)
+    via_decoder = False
+    if de is not None and vs is None:
+        # the visitor is not this decoder's own (a shared, generic one behind a helper that is handed the per-element action): the
+        # decoder itself is summarised, with `deserialize_seq(V)` expanded into V::visit_seq by serde's contract
+        vs, via_decoder = de, True
     if not ctx.oblige(key + "|anchor", vs is not None, "anchor missing: hand-written visit_seq of " + type_path, cfg=cfg):
         return None
     where = vs["sp"]
-    entry = [x.get("callee") for x in H.walk(de["body"]) if (x.get("callee") or "").startswith("serde_core::de::Deserializer::deserialize_")]
-    ctx.oblige(key + "|entry", entry == ["serde_core::de::Deserializer::deserialize_seq"], "%s is not decoded as a sequence (%s)" % (type_path, entry), cfg=cfg, where=de["sp"], nontrivial=False)
+    if not via_decoder:
+        entry = [x.get("callee") for x in H.walk(de["body"]) if (x.get("callee") or "").startswith("serde_core::de::Deserializer::deserialize_")]
+        ctx.oblige(key + "|entry", entry == ["serde_core::de::Deserializer::deserialize_seq"], "%s is not decoded as a sequence (%s)" % (type_path, entry), cfg=cfg, where=de["sp"], nontrivial=False)
     conv_fn = F.trait_impl_fn(conv_ref, "try_from")
     conv_path = conv_fn["path"] if conv_fn else None
 
@@ -104,11 +110,19 @@ def check_filter(ctx, F, cfg, type_path, acc_of, elem_ty, conv_ref, key, flag=No
         return f is not None and (f.get("pv") or "user") == "user" and path != conv_path
 
     sym = S.Sym(F, vs, is_effect=is_effect, inline=inline)
+    sym.visitor_calls = via_decoder
     try:
         paths = sym.run()
     except S.TooManyPaths:
         ctx.violation(key + "|paths", "the list decoder has too many paths to enumerate", cfg=cfg)
         return None
+    if via_decoder:
+        bodies = [de] + [F.fn(q) for q in sym.inlined if F.fn(q) is not None]
+        entry = [x.get("callee") for g in bodies for x in H.walk(g["body"]) if (x.get("callee") or "").startswith("serde_core::de::Deserializer::deserialize_")]
+        expanded = any(t[0] == "visitor-rejected" for p in paths for t in p.trace)
+        if not ctx.oblige(key + "|anchor", entry == ["serde_core::de::Deserializer::deserialize_seq"] and expanded,
+                          "anchor missing: hand-written visit_seq of %s (the decoder does not hand a visitor of its own to deserialize_seq: %s)" % (type_path, entry), cfg=cfg, where=de["sp"]):
+            return None
     outs = set()
     n_iter = n_push = 0
     elem_tys = set()
@@ -161,6 +175,13 @@ def check_filter(ctx, F, cfg, type_path, acc_of, elem_ty, conv_ref, key, flag=No
             ctx.oblige(key + "|no-panic|diverge", False, "the list decoder can diverge (panic!/unreachable!)", cfg=cfg, where=where)
             continue
         nexts = [e for e in p.effects if e.callee == NEXT]
+        if any(t[0] == "visitor-rejected" for t in p.trace):
+            # the input was not a sequence: the sequence decoder's own error, the visitor never ran
+            r = p.result
+            good = not nexts and not [e for e in p.effects if e.callee != conv_path and e.kind != "closure"] and r is not None and r[0] == "ctor" and r[1] == S.ERR \
+                and D.strip_conv(r[2][0])[0] == "call" and D.strip_conv(r[2][0])[1] == "serde::not-a-sequence"
+            ctx.oblige(key + "|only-cbor-error|%d" % i, good, "when the input is not a sequence the list decoder answers %s after %s: expected the sequence decoder's own error and nothing else" % (S.show(r)[:60], [S.short_fn(e.callee) for e in p.effects][:3]), cfg=cfg, where=where)
+            continue
         if not ctx.oblige(key + "|loop", len(nexts) == 1 and p.loops == 1, "the list decoder is not a single loop over `seq.next_element()` (%d calls, %d loops on a path)" % (len(nexts), p.loops), cfg=cfg, where=where, nontrivial=False):
             continue
         N = nexts[0]
